@@ -257,3 +257,6 @@ def run(ctx):
     sites = L.queue_sites(fb, r"^babylon::GarbageCollector<.*>$")
     ctx.floor("C10.R4", len(sites), 6, "queue push/pop call sites of the collector")
     L.check_queue_pairing(ctx, "C10.R4", sites)
+
+
+SWEEP = ["concurrent/test_garbage_collector.cpp"]
